@@ -132,8 +132,9 @@ CLAIMED = {
     "C14": dict(
         text="Lean theorems about a model of cells.py: for every rational coordinate (negative, zero, on a boundary, far away) the key arithmetic puts it into a contiguous interval of width <= s whose lower end is a multiple of s; "
         "coordinates closer than the cell size land in the same or an adjacent cell; under the bookkeeping invariant every other registered atom in an adjacent cell is returned by the 27-cell query; "
-        "and the invariant holds after EVERY sequence of protocol-obeying place / remove / move operations. Model tied to the real Cells by random operation sequences (incl. protocol-violating ones). "
-        "The end-to-end claim additionally needs the callers to obey the protocol: monitored on real runs (every neighbour query compared with brute force over the live structure); the call sites that break it are genuine defects listed as known findings.",
+        "the invariant holds after EVERY sequence of protocol-obeying place / remove / move operations; after every such history the query is EXACT (near_exact: b is returned iff b is another registered atom of an adjacent cell; near_nodup: nothing is returned twice; "
+        "near_in_range: two registered atoms closer than the cell size along every axis find each other, for any rational coordinates). Model tied to the real Cells by random operation sequences (incl. protocol-violating ones). "
+        "The end-to-end claim additionally needs the callers to obey the protocol: monitored on real runs (every neighbour query compared with brute force over the live structure: lost, ghost and doubly returned neighbours); the call sites that break it are genuine defects listed as known findings.",
         note="partial by nature: caller discipline is monitored on runs, not proved for all structures; int() truncation supplied by the driver",
         ref="DESIGN.md §4 C14",
     ),
